@@ -68,7 +68,8 @@ HoistLex(h, e, xs) ==
   ELSE LET d == Nd(xs[1]) IN
        LET h1 == CASE d.ty = "decl" /\ d.kind \in {"let", "const"} -> Declare(h, e, d.name, U, FALSE, d.kind = "let")
                    [] d.ty = "ddecl" /\ d.kind \in {"let", "const"} -> DeclareAll(h, e, d.names, d.kind = "let")
-                   [] d.ty = "funcdecl" -> LET h2 == Append(h, [k |-> "fun", params |-> d.params, defs |-> d.defs, body |-> d.body, env |-> e, name |-> d.name, arrow |-> FALSE, gen |-> (d.gen = 1)])
+                   [] d.ty = "classdecl" -> Declare(h, e, d.name, U, FALSE, TRUE)
+                   [] d.ty = "funcdecl" -> LET h2 == Append(h, [k |-> "fun", params |-> d.params, defs |-> d.defs, body |-> d.body, env |-> e, name |-> d.name, arrow |-> FALSE, gen |-> (d.gen = 1), cls |-> FALSE, home |-> 0])
                                            IN Declare(h2, e, d.name, Fun(Len(h2)), TRUE, TRUE)
                    [] OTHER -> h
        IN HoistLex(h1, e, Tail(xs))
@@ -97,8 +98,18 @@ JoinArr(h, es) == IF es = <<>> THEN <<>>
 IdxOfKey(cs) == IF AllDigits(cs) /\ Len(cs) <= 6 /\ (Len(cs) = 1 \/ cs[1] # 48) THEN DigVal(cs, 0) ELSE -1
 KeyOf(h, v) == ToStringP(ToPrimH(h, v))       \* ToPropertyKey (no symbols)
 LengthKey == <<108,101,110,103,116,104>>
+ProtoOf(o) == IF "proto" \in DOMAIN o THEN o.proto ELSE 0        \* [[Prototype]] of an ordinary object (0: Object.prototype)
+IsCls(h, v) == v.t = "fun" /\ h[v.a].cls
 ObjFind(o, key) == IF \E i \in 1..Len(o.ks) : o.ks[i] = key THEN CHOOSE i \in 1..Len(o.ks) : o.ks[i] = key ELSE 0
 \* [[Get]] : returns [ok |-> TRUE, v |-> value] or [ok |-> FALSE] (TypeError on undefined/null base)
+RECURSIVE ObjGet(_, _, _)       \* [[Get]] on an ordinary object: own property, then the prototype chain
+ObjGet(h, a, key) == LET o == h[a] i == ObjFind(o, key) IN
+  IF i > 0 THEN [found |-> TRUE, v |-> o.vs[i]] ELSE IF ProtoOf(o) = 0 THEN [found |-> FALSE, v |-> U] ELSE ObjGet(h, ProtoOf(o), key)
+RECURSIVE ClsGet(_, _, _)       \* static member of a class: own, then the parent class (a class's [[Prototype]] is its parent)
+ClsGet(h, a, key) == LET o == h[a] i == ObjFind(o, key) IN
+  IF i > 0 THEN o.vs[i] ELSE IF o.parent = 0 THEN U ELSE ClsGet(h, o.parent, key)
+RECURSIVE ProtoChainHas(_, _, _)
+ProtoChainHas(h, a, target) == LET p == ProtoOf(h[a]) IN IF p = 0 THEN FALSE ELSE IF p = target THEN TRUE ELSE ProtoChainHas(h, p, target)
 GetProp(h, base, key) ==
   CASE base.t \in {"undef", "null"} -> [ok |-> FALSE, v |-> U]
     [] base.t = "str" -> IF key = LengthKey THEN [ok |-> TRUE, v |-> N(Len(base.s))]
@@ -110,7 +121,7 @@ GetProp(h, base, key) ==
          ELSE IF o.k = "arr" THEN
             IF key = LengthKey THEN [ok |-> TRUE, v |-> N(Len(o.e))]
             ELSE LET i == IdxOfKey(key) IN IF i >= 0 /\ i < Len(o.e) THEN [ok |-> TRUE, v |-> o.e[i + 1]] ELSE [ok |-> TRUE, v |-> U]
-         ELSE LET i == ObjFind(o, key) IN IF i > 0 THEN [ok |-> TRUE, v |-> o.vs[i]] ELSE [ok |-> TRUE, v |-> U]
+         ELSE [ok |-> TRUE, v |-> ObjGet(h, base.a, key).v]
     [] OTHER -> [ok |-> TRUE, v |-> U]
 \* [[HasProperty]] for the `in` operator: own keys, array indices and length, and what every object inherits from
 \* Object.prototype / Array.prototype (only the names the generators use).  "unmodelled" for generators.
@@ -122,7 +133,7 @@ HasProp(h, base, key) ==
   ELSE IF key \in ObjectProtoNames THEN "t"
   ELSE IF o.k = "arr" THEN (IF key = LengthKey \/ key \in ArrayProtoNames THEN "t"
                            ELSE LET i == IdxOfKey(key) IN IF i >= 0 /\ i < Len(o.e) THEN "t" ELSE "f")
-  ELSE IF ObjFind(o, key) > 0 THEN "t" ELSE "f"
+  ELSE IF ObjGet(h, base.a, key).found THEN "t" ELSE "f"
 \* [[Set]] in strict mode: returns [r |-> "ok", h |-> heap'] | [r |-> "type"] | [r |-> "unmodelled"]
 SetProp(h, base, key, v) ==
   IF base.t # "ref" THEN [r |-> "type", h |-> h]
@@ -338,6 +349,19 @@ DBind(n, base, es, i, rest) == LET d == Nd(n) IN
        IF v.t = "undef" /\ d.defs[i] # 0 THEN Go(Ev(d.defs[i])) /\ k' = <<[f |-> "ddD", n |-> n, base |-> base, es |-> es, i |-> i]>> \o rest /\ Same
        ELSE /\ heap' = SetBinding(heap, FindEnv(heap, env, d.names[i]), d.names[i], v) /\ UNCHANGED <<env, out>>
             /\ Go(RetV(U)) /\ k' = <<[f |-> "ddN", n |-> n, base |-> base, es |-> es, i |-> i + 1]>> \o rest
+\* ---- classes.  A class is a function record with cls = TRUE: protoObj (the object instances inherit from; methods live there),
+\* parent (address of the parent class or 0), instance fields (fkeys / finit), static members (ks / vs), hasctor.
+\* Instances are ordinary objects with proto = newTarget.protoObj.  Field initialisers run when the instance exists:
+\* at the start of a base constructor, right after super() returns in a derived one.
+RECURSIVE AppendFuns(_, _, _, _)
+AppendFuns(h, nodes, home, e) == IF nodes = <<>> THEN h
+   ELSE LET d == Nd(nodes[1]) IN
+        AppendFuns(Append(h, [k |-> "fun", params |-> d.params, defs |-> d.defs, body |-> d.body, env |-> e, name |-> d.name,
+                              arrow |-> FALSE, gen |-> FALSE, cls |-> FALSE, home |-> home]), Tail(nodes), home, e)
+EnvVal(name) == LET e == FindEnv(heap, env, name) IN heap[e].vars[VarIdx(heap, e, name)]
+RECURSIVE BindParams(_, _, _, _, _)
+BindParams(h, e, params, args, i) == IF i > Len(params) THEN h
+   ELSE BindParams(Declare(h, e, params[i], IF i <= Len(args) THEN args[i] ELSE U, TRUE, TRUE), e, params, args, i + 1)
 \* a label directly in front of a loop names the loop: break L and continue L are addressed to it
 LblOf(kk) == IF kk # <<>> /\ Head(kk).f = "label" THEN Head(kk).l ELSE ""
 \* ---- for (init; test; update) body.  With `let` in the head every iteration runs in a fresh copy of the loop
@@ -402,6 +426,29 @@ StepEv(n) == LET d == Nd(n) IN
     [] d.ty = "ochain" -> Go(Ev(d.a)) /\ Push([f |-> "ochain", n |-> n, i |-> 0]) /\ Same   \* a?.[k1][k2]... : only the first link is optional
     [] d.ty = "spread" -> Go(Ret(Abrupt("unmodelled", U, ""))) /\ UNCHANGED k /\ Same     \* only meaningful inside an array literal (handled there)
     [] d.ty = "ddecl" -> Go(Ev(d.a)) /\ Push([f |-> "ddA", n |-> n]) /\ Same
+    [] d.ty = "classdecl" ->
+         \* ClassDefinitionEvaluation: the heritage must be a constructor; prototype object, class record and methods are created;
+         \* static field initialisers run in order; finally the (so far uninitialised) class binding is initialised
+         LET pe == IF d.parent = "" THEN NoEnv ELSE FindEnv(heap, env, d.parent) IN
+         IF d.parent # "" /\ pe = NoEnv THEN Go(Ret(Throw(Err("ReferenceError")))) /\ UNCHANGED k /\ Same
+         ELSE IF d.parent # "" /\ ~heap[pe].vars[VarIdx(heap, pe, d.parent)].init THEN Go(Ret(Throw(Err("ReferenceError")))) /\ UNCHANGED k /\ Same
+         ELSE LET pv == IF d.parent = "" THEN U ELSE heap[pe].vars[VarIdx(heap, pe, d.parent)].v IN
+              IF d.parent # "" /\ pv.t = "fun" /\ ~IsCls(heap, pv) /\ ~heap[pv.a].arrow /\ ~heap[pv.a].gen THEN Go(Ret(Abrupt("unmodelled", U, ""))) /\ UNCHANGED k /\ Same
+              ELSE IF d.parent # "" /\ pv.t = "null" THEN Go(Ret(Abrupt("unmodelled", U, ""))) /\ UNCHANGED k /\ Same
+              ELSE IF d.parent # "" /\ ~IsCls(heap, pv) THEN Go(Ret(Throw(Err("TypeError")))) /\ UNCHANGED k /\ Same
+              ELSE LET par == IF d.parent = "" THEN 0 ELSE pv.a
+                       L == Len(heap)  M == Len(d.mkeys)  SM == Len(d.smkeys)
+                       protoA == L + 1  clsA == L + 2
+                       h1 == Append(heap, [k |-> "obj", ks |-> d.mkeys, vs |-> [i \in 1..M |-> Fun(L + 2 + i)], proto |-> IF par = 0 THEN 0 ELSE heap[par].protoObj])
+                       h2 == Append(h1, [k |-> "fun", cls |-> TRUE, params |-> d.params, defs |-> d.defs, body |-> d.body, env |-> env, name |-> d.name,
+                                         arrow |-> FALSE, gen |-> FALSE, home |-> 0, protoObj |-> protoA, parent |-> par, fkeys |-> d.fkeys, finit |-> d.finit,
+                                         ks |-> d.smkeys, vs |-> [i \in 1..SM |-> Fun(L + 2 + M + i)], hasctor |-> (d.hasctor = 1)])
+                       h3 == AppendFuns(AppendFuns(h2, d.mfuncs, protoA, env), d.smfuncs, clsA, env)
+                   IN /\ heap' = h3 /\ UNCHANGED <<env, out>> /\ Go(RetV(U)) /\ Push([f |-> "clsS", n |-> n, c |-> clsA, i |-> 0])
+    [] d.ty = "supercall" -> IF d.args = <<>> THEN Go(RetV(U)) /\ Push([f |-> "superGo", args |-> <<>>]) /\ Same
+                             ELSE Go(Ev(d.args[1])) /\ Push([f |-> "superA", n |-> n, args |-> <<>>]) /\ Same
+    [] d.ty = "supermcall" -> IF d.args = <<>> THEN Go(RetV(U)) /\ Push([f |-> "superM", key |-> d.key, args |-> <<>>]) /\ Same
+                              ELSE Go(Ev(d.args[1])) /\ Push([f |-> "superMA", n |-> n, args |-> <<>>]) /\ Same
     [] d.ty = "bin" -> Go(Ev(d.a)) /\ Push([f |-> "binL", n |-> n]) /\ Same
     [] d.ty = "logical" -> Go(Ev(d.a)) /\ Push([f |-> "logical", n |-> n]) /\ Same
     [] d.ty = "unary" ->
@@ -421,7 +468,7 @@ StepEv(n) == LET d == Nd(n) IN
                         /\ Go(RetV(IF d.prefix = 1 THEN new ELSE old)) /\ UNCHANGED <<k, env, out>>
     [] d.ty = "cond" -> Go(Ev(d.a)) /\ Push([f |-> "cond", n |-> n]) /\ Same
     [] d.ty = "func" ->
-         /\ heap' = Append(heap, [k |-> "fun", params |-> d.params, defs |-> d.defs, body |-> d.body, env |-> env, name |-> d.name, arrow |-> (d.arrow = 1), gen |-> (d.gen = 1)])
+         /\ heap' = Append(heap, [k |-> "fun", params |-> d.params, defs |-> d.defs, body |-> d.body, env |-> env, name |-> d.name, arrow |-> (d.arrow = 1), gen |-> (d.gen = 1), cls |-> FALSE, home |-> 0])
          /\ Go(RetV(Fun(Len(heap) + 1))) /\ UNCHANGED <<k, env, out>>
     [] d.ty \in {"call", "new"} -> Go(Ev(d.f)) /\ Push([f |-> "callF", n |-> n]) /\ Same
     [] d.ty = "order" -> Go(Ev(d.a)) /\ Push([f |-> "order"]) /\ Same
@@ -437,7 +484,9 @@ StepEv(n) == LET d == Nd(n) IN
     [] d.ty = "mcall" -> Go(Ev(d.a)) /\ Push([f |-> "mcallA", n |-> n]) /\ Same
     [] d.ty = "this" ->
          LET e == FindEnv(heap, env, "this") IN
-         Go(RetV(IF e = NoEnv THEN U ELSE heap[e].vars[VarIdx(heap, e, "this")].v)) /\ UNCHANGED k /\ Same
+         Go(IF e = NoEnv THEN RetV(U)
+            ELSE IF ~heap[e].vars[VarIdx(heap, e, "this")].init THEN Ret(Throw(Err("ReferenceError")))      \* derived constructor before super()
+            ELSE RetV(heap[e].vars[VarIdx(heap, e, "this")].v)) /\ UNCHANGED k /\ Same
     [] d.ty = "forof" ->
          \* ForIn/OfHeadEvaluation: with a let/const binding the iterable is evaluated in a scope where the name is in its dead zone
          IF d.kind = "var" THEN Go(Ev(d.a)) /\ Push([f |-> "forofA", n |-> n, e |-> env, lbl |-> LblOf(k)]) /\ Same
@@ -489,6 +538,26 @@ EnterBody(h, e, body, callerEnv, nw, rest) ==
   /\ IF body.xs = <<>> THEN Go(RetV(U)) /\ k' = <<[f |-> "callret", e |-> callerEnv, nw |-> nw]>> \o rest
      ELSE Go(Ev(body.xs[1])) /\ k' = <<[f |-> "list", xs |-> body.xs, i |-> 1], [f |-> "callret", e |-> callerEnv, nw |-> nw]>> \o rest
 Mine(f, c) == c.l = "" \/ c.l = f.lbl
+\* [[Construct]] of class C with new.target nt
+ConstructCls(C, args, nt, rest) == LET cls == heap[C] IN
+  IF cls.parent = 0 THEN
+     LET hN == Append(heap, [k |-> "obj", ks |-> <<>>, vs |-> <<>>, proto |-> heap[nt].protoObj])
+         obj == Ref(Len(hN))
+         h0 == NewEnv(hN, cls.env)  e == Len(h0)
+         h1 == BindParams(h0, e, IF cls.hasctor THEN cls.params ELSE <<>>, args, 1)
+         h2 == Declare(Declare(Declare(h1, e, "this", obj, TRUE, FALSE), e, "%cls", Fun(C), TRUE, FALSE), e, "%nt", Fun(nt), TRUE, FALSE)
+     IN /\ heap' = h2 /\ env' = e /\ UNCHANGED out /\ Go(RetV(U))
+        /\ k' = <<[f |-> "clsF", c |-> C, i |-> 0, after |-> "body", cenv |-> env, nw |-> obj]>> \o rest
+  ELSE
+     LET h0 == NewEnv(heap, cls.env)  e == Len(h0)
+         h1 == BindParams(h0, e, IF cls.hasctor THEN cls.params ELSE <<>>, args, 1)
+         h2 == Declare(Declare(Declare(h1, e, "this", U, FALSE, FALSE), e, "%cls", Fun(C), TRUE, FALSE), e, "%nt", Fun(nt), TRUE, FALSE)
+     IN IF cls.hasctor THEN EnterBody(h2, e, Nd(cls.body), env, [t |-> "derived"], rest)
+        ELSE \* implicit constructor(...args) { super(...args); }
+             /\ heap' = h2 /\ env' = e /\ UNCHANGED out /\ Go(RetV(U))
+             /\ k' = <<[f |-> "apply", fv |-> Fun(cls.parent), args |-> args, thisv |-> U, isnew |-> TRUE, nt |-> nt],
+                       [f |-> "superR", c |-> C], [f |-> "callret", e |-> env, nw |-> [t |-> "derived"]]>> \o rest
+
 
 StepRet == LET c == ctl.c IN
   IF k = <<>> THEN
@@ -508,6 +577,11 @@ StepRet == LET c == ctl.c IN
       ELSE IF f.f = "callret" THEN    \* function boundary
            /\ env' = f.e /\ k' = rest /\ UNCHANGED <<heap, out>>
            /\ Go(IF c.c \in {"throw", "unmodelled"} THEN Ret(c)
+                 ELSE IF f.nw.t = "derived" THEN      \* derived class constructor: the result is the returned object, else the initialised `this`
+                      (IF c.c = "return" /\ c.v.t \in {"ref", "fun", "err"} THEN RetV(c.v)
+                       ELSE IF c.c = "return" /\ c.v.t # "undef" THEN Ret(Throw(Err("TypeError")))
+                       ELSE LET e == FindEnv(heap, env, "this") b == heap[e].vars[VarIdx(heap, e, "this")] IN
+                            IF b.init THEN RetV(b.v) ELSE Ret(Throw(Err("ReferenceError"))))
                  ELSE IF f.nw.t = "ref" THEN (IF c.c = "return" /\ c.v.t \in {"ref", "fun", "err"} THEN RetV(c.v) ELSE RetV(f.nw))
                  ELSE IF c.c = "return" THEN RetV(c.v) ELSE RetV(U))
       ELSE IF c.c = "unmodelled" THEN Go(ctl) /\ k' = rest /\ Same    \* outside the model: no handler and no finally block may turn it into something judged
@@ -553,7 +627,12 @@ StepRet == LET c == ctl.c IN
                ELSE IF ToPrim(f.l).t = "big" THEN Go(Ret(Abrupt("unmodelled", U, ""))) /\ k' = rest /\ Same
                ELSE LET r == HasProp(heap, v, KeyOf(heap, f.l)) IN
                     Go(IF r = "unmodelled" THEN Ret(Abrupt("unmodelled", U, "")) ELSE RetV(B(r = "t"))) /\ k' = rest /\ Same
-          [] f.f = "binR" /\ Nd(f.n).op # "in" -> LET r == BinX(Nd(f.n).op, f.l, v) IN
+          [] f.f = "binR" /\ Nd(f.n).op = "instanceof" ->
+               \* OrdinaryHasInstance: the right operand must be callable; only classes are modelled as right operands
+               IF v.t # "fun" THEN Go(Ret(Throw(Err("TypeError")))) /\ k' = rest /\ Same
+               ELSE IF ~IsCls(heap, v) THEN Go(Ret(Abrupt("unmodelled", U, ""))) /\ k' = rest /\ Same
+               ELSE Go(RetV(B(f.l.t = "ref" /\ ProtoChainHas(heap, f.l.a, heap[v.a].protoObj)))) /\ k' = rest /\ Same
+          [] f.f = "binR" /\ Nd(f.n).op \notin {"in", "instanceof"} -> LET r == BinX(Nd(f.n).op, f.l, v) IN
                              Go(IF r.t = "big" THEN Ret(Abrupt("unmodelled", U, "")) ELSE RetV(r)) /\ k' = rest /\ Same
           [] f.f = "logical" ->
                LET op == Nd(f.n).op
@@ -595,13 +674,57 @@ StepRet == LET c == ctl.c IN
                ELSE Go(Ev(d.vals[Len(acc) + 1])) /\ k' = <<[f EXCEPT !.acc = acc]>> \o rest /\ Same
           [] f.f = "member" ->
                LET g == GetProp(heap, v, f.key) IN
-               Go(IF v.t \in {"fun", "err"} THEN Ret(Abrupt("unmodelled", U, "")) ELSE IF g.ok THEN RetV(g.v) ELSE Ret(Throw(Err("TypeError")))) /\ k' = rest /\ Same
+               Go(IF IsCls(heap, v) /\ f.key # LengthKey THEN RetV(ClsGet(heap, v.a, f.key))
+                  ELSE IF v.t \in {"fun", "err"} THEN Ret(Abrupt("unmodelled", U, "")) ELSE IF g.ok THEN RetV(g.v) ELSE Ret(Throw(Err("TypeError")))) /\ k' = rest /\ Same
           [] f.f = "indexA" -> Go(Ev(Nd(f.n).b)) /\ k' = <<[f |-> "indexB", base |-> v]>> \o rest /\ Same
           [] f.f = "indexB" ->
                \* base null/undefined throws before ToPropertyKey
                IF f.base.t \in {"undef", "null"} THEN Go(Ret(Throw(Err("TypeError")))) /\ k' = rest /\ Same
                ELSE IF f.base.t \in {"fun", "err"} \/ v.t \in {"fun", "err"} \/ ToPrim(v).t = "big" THEN Go(Ret(Abrupt("unmodelled", U, ""))) /\ k' = rest /\ Same
                ELSE LET g == GetProp(heap, f.base, KeyOf(heap, v)) IN Go(RetV(g.v)) /\ k' = rest /\ Same
+          [] f.f = "clsS" ->       \* static field f.i has been evaluated (v); go on with the next one, finally initialise the class binding
+               LET d == Nd(f.n)
+                   h1 == IF f.i = 0 THEN heap
+                         ELSE LET o == heap[f.c] j == ObjFind(o, d.skeys[f.i]) IN
+                              IF j > 0 THEN [heap EXCEPT ![f.c].vs[j] = v] ELSE [heap EXCEPT ![f.c].ks = Append(@, d.skeys[f.i]), ![f.c].vs = Append(o.vs, v)]
+               IN IF f.i = Len(d.skeys) THEN heap' = SetBinding(h1, FindEnv(h1, env, d.name), d.name, Fun(f.c)) /\ UNCHANGED <<env, out>> /\ Go(RetV(U)) /\ k' = rest
+                  ELSE heap' = h1 /\ UNCHANGED <<env, out>> /\ Go(Ev(d.sinit[f.i + 1])) /\ k' = <<[f EXCEPT !.i = f.i + 1]>> \o rest
+          [] f.f = "clsF" ->       \* instance field f.i has been evaluated (v): define it on `this`, go on; afterwards the constructor body or back to super()
+               LET cls == heap[f.c]
+                   tv == EnvVal("this").v
+                   r == IF f.i = 0 THEN [r |-> "ok", h |-> heap] ELSE SetProp(heap, tv, cls.fkeys[f.i], v)
+               IN IF r.r # "ok" THEN Go(Ret(Abrupt("unmodelled", U, ""))) /\ k' = rest /\ Same
+                  ELSE IF f.i < Len(cls.fkeys) THEN
+                       /\ heap' = r.h /\ UNCHANGED <<env, out>>
+                       /\ (IF cls.finit[f.i + 1] = 0 THEN Go(RetV(U)) ELSE Go(Ev(cls.finit[f.i + 1]))) /\ k' = <<[f EXCEPT !.i = f.i + 1]>> \o rest
+                  ELSE IF f.after = "super" THEN heap' = r.h /\ UNCHANGED <<env, out>> /\ Go(RetV(tv)) /\ k' = rest
+                  ELSE IF cls.hasctor THEN EnterBody(r.h, env, Nd(cls.body), f.cenv, f.nw, rest)
+                  ELSE heap' = r.h /\ UNCHANGED <<env, out>> /\ Go(RetV(U)) /\ k' = <<[f |-> "callret", e |-> f.cenv, nw |-> f.nw]>> \o rest
+          [] f.f = "superA" ->
+               LET d == Nd(f.n) as == Append(f.args, v) IN
+               IF Len(as) = Len(d.args) THEN Go(RetV(U)) /\ k' = <<[f |-> "superGo", args |-> as]>> \o rest /\ Same
+               ELSE Go(Ev(d.args[Len(as) + 1])) /\ k' = <<[f EXCEPT !.args = as]>> \o rest /\ Same
+          [] f.f = "superGo" ->    \* super(args): construct the parent with the current new.target
+               IF FindEnv(heap, env, "%cls") = NoEnv THEN Go(Ret(Abrupt("unmodelled", U, ""))) /\ k' = rest /\ Same
+               ELSE LET C == EnvVal("%cls").v.a nt == EnvVal("%nt").v.a IN
+                    IF heap[C].parent = 0 THEN Go(Ret(Abrupt("unmodelled", U, ""))) /\ k' = rest /\ Same
+                    ELSE Go(RetV(U)) /\ Same
+                         /\ k' = <<[f |-> "apply", fv |-> Fun(heap[C].parent), args |-> f.args, thisv |-> U, isnew |-> TRUE, nt |-> nt], [f |-> "superR", c |-> C]>> \o rest
+          [] f.f = "superR" ->     \* the parent constructor returned the instance: bind `this` (once), then this class's field initialisers
+               LET e == FindEnv(heap, env, "this") IN
+               IF heap[e].vars[VarIdx(heap, e, "this")].init THEN Go(Ret(Throw(Err("ReferenceError")))) /\ k' = rest /\ Same
+               ELSE /\ heap' = SetBinding(heap, e, "this", v) /\ UNCHANGED <<env, out>> /\ Go(RetV(U))
+                    /\ k' = <<[f |-> "clsF", c |-> f.c, i |-> 0, after |-> "super", cenv |-> NoEnv, nw |-> U]>> \o rest
+          [] f.f = "superMA" ->
+               LET d == Nd(f.n) as == Append(f.args, v) IN
+               IF Len(as) = Len(d.args) THEN Go(RetV(U)) /\ k' = <<[f |-> "superM", key |-> d.key, args |-> as]>> \o rest /\ Same
+               ELSE Go(Ev(d.args[Len(as) + 1])) /\ k' = <<[f EXCEPT !.args = as]>> \o rest /\ Same
+          [] f.f = "superM" ->     \* super.m(args): the method is looked up from the prototype of the home object, this stays the same
+               IF FindEnv(heap, env, "%home") = NoEnv THEN Go(Ret(Abrupt("unmodelled", U, ""))) /\ k' = rest /\ Same
+               ELSE LET home == EnvVal("%home").v.v
+                        start == ProtoOf(heap[home])
+                        g == IF start = 0 THEN U ELSE ObjGet(heap, start, f.key).v IN
+                    Go(RetV(U)) /\ k' = <<[f |-> "apply", fv |-> g, args |-> f.args, thisv |-> EnvVal("this").v, isnew |-> FALSE]>> \o rest /\ Same
           [] f.f = "casgV" -> LET r == BinX(Nd(f.n).op, f.l, v) IN
                IF r.t = "big" THEN Go(Ret(Abrupt("unmodelled", U, ""))) /\ k' = rest /\ Same
                ELSE Go(RetV(r)) /\ k' = <<[f |-> "assign", n |-> f.n]>> \o rest /\ Same
@@ -662,6 +785,10 @@ StepRet == LET c == ctl.c IN
                   (IF GenOpOf(d.key) = "" THEN Go(Ret(Abrupt("unmodelled", U, ""))) /\ k' = rest /\ Same
                    ELSE IF d.args = <<>> THEN Go(RetV(U)) /\ k' = <<[f |-> "genop", g |-> v.a, op |-> GenOpOf(d.key), arg |-> U]>> \o rest /\ Same
                    ELSE Go(Ev(d.args[1])) /\ k' = <<[f |-> "genarg", g |-> v.a, op |-> GenOpOf(d.key)]>> \o rest /\ Same)
+               ELSE IF IsCls(heap, v) /\ d.key # LengthKey THEN      \* static method call: this = the class
+                    LET sg == ClsGet(heap, v.a, d.key) IN
+                    IF d.args = <<>> THEN Go(RetV(v)) /\ k' = <<[f |-> "apply", fv |-> sg, args |-> <<>>, thisv |-> v, isnew |-> FALSE]>> \o rest /\ Same
+                    ELSE Go(Ev(d.args[1])) /\ k' = <<[f |-> "callA", n |-> f.n, fv |-> sg, args |-> <<>>, thisv |-> v]>> \o rest /\ Same
                ELSE IF v.t \in {"fun", "err"} THEN Go(Ret(Abrupt("unmodelled", U, ""))) /\ k' = rest /\ Same
                ELSE IF ~g.ok THEN Go(Ret(Throw(Err("TypeError")))) /\ k' = rest /\ Same
                ELSE IF d.args = <<>> THEN Go(RetV(v)) /\ k' = <<[f |-> "apply", fv |-> g.v, args |-> <<>>, thisv |-> v, isnew |-> FALSE]>> \o rest /\ Same
@@ -765,6 +892,8 @@ StepRet == LET c == ctl.c IN
           [] f.f = "apply" ->
                IF f.fv.t # "fun" THEN Go(Ret(Throw(Err("TypeError")))) /\ k' = rest /\ Same
                ELSE IF f.isnew /\ (heap[f.fv.a].gen \/ heap[f.fv.a].arrow) THEN Go(Ret(Throw(Err("TypeError")))) /\ k' = rest /\ Same    \* not a constructor
+               ELSE IF heap[f.fv.a].cls /\ ~f.isnew THEN Go(Ret(Throw(Err("TypeError")))) /\ k' = rest /\ Same      \* a class constructor cannot be called
+               ELSE IF heap[f.fv.a].cls THEN ConstructCls(f.fv.a, f.args, IF "nt" \in DOMAIN f THEN f.nt ELSE f.fv.a, rest)
                ELSE IF heap[f.fv.a].gen THEN
                     /\ heap' = Append(heap, [k |-> "gen", st |-> "start", fn |-> f.fv.a, args |-> f.args, thisv |-> f.thisv, kont |-> <<>>, genv |-> NoEnv])
                     /\ Go(RetV(Ref(Len(heap) + 1))) /\ k' = rest /\ UNCHANGED <<env, out>>
@@ -778,7 +907,8 @@ StepRet == LET c == ctl.c IN
                         Bind(h, i) == IF i > Len(fn.params) THEN h
                                       ELSE Bind(Declare(h, e, fn.params[i], IF i <= Len(f.args) THEN f.args[i] ELSE U, TRUE, TRUE), i + 1)
                         h1a == Bind(h0, 1)
-                        h1 == IF fn.arrow THEN h1a ELSE Declare(h1a, e, "this", thisv, TRUE, FALSE)
+                        h1b == IF fn.arrow THEN h1a ELSE Declare(h1a, e, "this", thisv, TRUE, FALSE)
+                        h1 == IF fn.home # 0 THEN Declare(h1b, e, "%home", N(fn.home), TRUE, FALSE) ELSE h1b
                         body == Nd(fn.body)
                         \* parameters whose argument is undefined (missing or explicit) and that have a default initialiser, in order
                         need == NeedDefault(fn, f.args, 1)
